@@ -62,4 +62,10 @@ if rnd == 4:
     text = text.replace('  B/...          the same for change B', '  B/..., C/...   the same for changes B and C')
     text = text.replace('summarise A and B', 'summarise A, B and C')
     text = text.replace('If you could only\nproduce one convincing change, deliver one and say so.', 'If you could only produce fewer convincing changes, deliver those and say so.')
+if rnd == 5:
+    text = text.replace('produce TWO independent source changes (call them A and B)', 'produce THREE independent source changes (call them A, B and C)')
+    text = text.replace('(for change B pick a different mechanism / code site than for A where possible)', '(each of a different nature: A is confined to a HEADER or a declaration - an inline or template function, a default argument, a default member initialiser, the type, width, signedness or constness of a member / parameter / return value, an enum or a constant table - and no function body in a .cpp file is touched; B sits on a path the tests never take: an ERROR, timeout, cancellation, teardown / destructor or "peer misbehaves" branch, or the second and later use of an object (reuse after reset, second request, reconnect, re-registration); C is a TWO-PLACE change in which each place looks right on its own and only the combination breaks the property - a producer and its consumer, a setter and the code that reads the field, a serializer and a parser, a flag set in one function and tested in another - made by someone who updated one side for a good reason and adapted the other side incompletely. None of the three may be just a deleted or negated check in the function a reviewer would look at first)')
+    text = text.replace('  B/...          the same for change B', '  B/..., C/...   the same for changes B and C')
+    text = text.replace('summarise A and B', 'summarise A, B and C')
+    text = text.replace('If you could only\nproduce one convincing change, deliver one and say so.', 'If you could only produce fewer convincing changes, deliver those and say so.')
 print(text)
